@@ -111,23 +111,14 @@ Theorem C16_local_first : forall locals tops n,
 Proof. exact use_local_first. Qed.
 Print Assumptions C16_local_first.
 
-(* [[name]] without a class: FALSE in general *)
-Definition C16_local_first_find_statement : Prop :=
-  forall B tops n child,
-    local_first_ok B n (project_find B tops n None child) = true.
-Theorem C16_local_first_find_partial : forall B tops n child,
-  (lower_in n (local_names B CModules) = true \/ lower_in n (local_names B CSubmodules) = true)
-  \/ (ext_named tops n = false /\ defined_locally B n = true) ->
-  exists h, project_find B tops n None child = Ok (Some h) /\ is_local h = true.
-Proof. exact local_first_find_partial. Qed.
-Print Assumptions C16_local_first_find_partial.
-Theorem C16_local_first_find_refuted : ~ C16_local_first_find_statement.
-Proof.
-  intros H. specialize (H B_shape tops_shape (s "shape") None).
-  destruct local_first_find_refuted as [D F]. unfold local_first_ok in H. rewrite D, F in H.
-  discriminate H.
-Qed.
-Print Assumptions C16_local_first_find_refuted.
+(* [[name]] without a class (Project.find): for every B, every set of imported objects, every name
+   and optional child, a name that B defines in any of its collections resolves to B's entity - the
+   imported collections are searched only after all of B's own.  (Full statement: the search-order
+   defect recorded earlier is repaired; the former counterexample is local_first_find_regression.) *)
+Theorem C16_local_first_find : forall B tops n child,
+  local_first_ok B n (project_find B tops n None child) = true.
+Proof. exact find_local_first_ok. Qed.
+Print Assumptions C16_local_first_find.
 
 (* ---------------------------------------------------------------- load errors *)
 
@@ -166,6 +157,7 @@ Proof. exact roundtrip_nonvacuous. Qed.
 
 (* ATTRIBUTES, ENTITIES and the `_project_list`s, METADATA_NAME, the caught exceptions, SUBLINK_TYPES,
    LINK_TYPES (order included), the order of FortranBase.children and of chain(modules, external_modules),
+   the two-phase search of Project.find (own collections, then the external ones),
    regenerated from the source on every check, are the ones the model uses *)
 Theorem C16_tables_fingerprint :
   ATTRIBUTES_src = ATTRIBUTES /\
@@ -176,6 +168,7 @@ Theorem C16_tables_fingerprint :
   SUBLINK_TYPES_src = SUBLINK_TYPES /\
   LINK_TYPES_src = map (fun kc => (fst kc, coll_name (snd kc))) LINK_TYPES /\
   filter (fun k => str_in k ATTRIBUTES) CHILDREN_src = CHILD_ORDER /\
-  USE_CHAIN_src = [s "modules"; s "external_modules"].
+  USE_CHAIN_src = [s "modules"; s "external_modules"] /\
+  FIND_LOCAL_FIRST_src = true.
 Proof. exact tables_fingerprint. Qed.
 Print Assumptions C16_tables_fingerprint.
